@@ -276,6 +276,12 @@ class ExprMixin:
                 elems = [self.read_elem(l), self.read_elem(r)]
                 o = self.new_container("list", node, elem=join_all(elems))
                 return Val(refs=[o.oid], deps=l.deps | r.deps)
+        if isinstance(node.op, (ast.BitAnd, ast.BitOr, ast.BitXor, ast.Sub)) and (l.refs or r.refs) and all(
+                self.obj(o).cls == "set" for o in l.refs | r.refs):
+            # set algebra: a fresh set whose elements come from the operands
+            elems = [self.read_elem(x) for x in (l, r) if x.refs]
+            o = self.new_container("set", node, elem=join_all(elems))
+            return Val(refs=[o.oid], deps=l.deps | r.deps)
         if isinstance(node.op, ast.Mult):
             for side in (l, r):
                 if side.refs and all(self.obj(o).cls == "list" for o in side.refs):
